@@ -61,6 +61,7 @@ func profile(name string) Profile {
 	case "C04", "C18":
 		w["reopen"], w["closereopen"], w["search"], w["collect"] = 10, 6, 14, 10
 		w["repairabandon"] = 3
+		w["reopenorder"] = 8
 		p.Sweep = 50
 	case "C05":
 		p.CfgMode = "syncany+async20"
@@ -543,6 +544,10 @@ func (e *Exec) GenOp(r *rand.Rand, p Profile) []string {
 		if pct(r, 3) && p.Name != "golden" {
 			f = genBad(r, f)
 		}
+		if pct(r, 6) && p.Name != "golden" && !e.spec.off {
+			// a NEW object whose identifier the application chose (Object.Initialize), upper case one time out of three
+			f.U = len(e.uu)
+		}
 		return sweep("ins " + f.String())
 	case "crashwrite":
 		// the process dies at the k-th mutating file operation of a mutating call; the
@@ -896,6 +901,12 @@ func (e *Exec) GenOp(r *rand.Rand, p Profile) []string {
 		return sweep("reopen")
 	case "closereopen":
 		return sweep("close", "reopen")
+	case "reopenorder":
+		// the whole index right before and right after a restart (Close or, in synchronous mode, none)
+		if e.cfg.Async || p.Name == "C12" || pct(r, 40) {
+			return []string{"count", "all", "dump", "close", "reopen", "count", "all", "dump"}
+		}
+		return []string{"count", "all", "dump", "reopen", "count", "all", "dump"}
 	case "aidx":
 		return []string{fmt.Sprintf("aidx %d", e.genField(r)%NF)}
 	case "control":
